@@ -505,7 +505,9 @@ func (c *fctx) call(x *ast.CallExpr) (string, string) {
 	case "(*math/big.Int).Int64":
 		return "(wrap64 " + recv() + ")", "I"
 	case "(*math/big.Int).Uint64":
-		return "(" + recv() + " % 18446744073709551616)", "I"
+		// the low 64 bits of the ABSOLUTE value (math/big ignores the sign here; found by the funcs
+		// engine: the first translation took the two's complement of a negative number)
+		return "((Int.ofNat (Int.natAbs " + recv() + ")) % 18446744073709551616)", "I"
 	case "(*math/big.Int).IsInt64":
 		r := recv()
 		return "(decide (-9223372036854775808 ≤ " + r + " ∧ " + r + " ≤ 9223372036854775807))", "B"
